@@ -373,6 +373,69 @@ def check(db, rep):
                 r3.violation('greek:' + g, '%s:%d' % (conv.file, conv.line), 'local name %s1 is printed in ASCII as %r (documented: %s1) and in MATH as %r; ASCII result lexes as %s' % (
                     g, out_ascii.decode('utf-8', 'replace'), latin, out_math.decode('utf-8', 'replace'), [x[0] for x in toks]))
 
+    # ---------------------------------------------------------------- r8
+    r8 = rep.rule('r8', 'IDENTIFIER-CLOSURE: every identifier the MATH lexer accepts is printed in ASCII (Token::ToString interpreted) as a text the ASCII lexer reads as one identifier of the same kind - also when it contains Greek letters outside a local name, or when its transliteration spells an ASCII keyword', 2)
+    tostr = db.fn('ccl::rslang::Token::ToString', required=False)
+    if tostr is None:
+        r8.broken('anchor vanished: Token::ToString')
+    else:
+        tokid = {e['name']: e['val'] for e in db.enum('ccl::rslang::TokenID')['enumerators']}
+        inv = {v: k for k, v in TRANSLIT.items()}
+        cands = []
+        # (a) identifiers of every non-local kind with a Greek letter inside
+        for first in 'XCSDATFPR':
+            for body in ('α', 'αβ1', '1α', 'δ2'):
+                cands.append(first + body)
+        # (b) local names whose transliteration is a word the ASCII lexer gives another meaning: taken from the ASCII spelling table
+        words = set()
+        for tid in tokid:
+            try:
+                sp = M.gen.interp().call(db.fn('ccl::rslang::Token::Str'), [tokid[tid], syntax_enum['ASCII']])
+            except Exception:
+                continue
+            sp = bytes(sp).decode('ascii', 'replace').strip() if isinstance(sp, (bytes, bytearray)) else ''
+            if sp and sp[0].islower() and all(ch.isalnum() for ch in sp):
+                words.add(sp)
+        for w in sorted(words) + ['pr1', 'pr12']:
+            if all((ch in inv) or ch.isdigit() for ch in w):
+                cands.append(''.join(inv.get(ch, ch) for ch in w))                         # all Greek
+                cands.append(inv.get(w[0], w[0]) + w[1:])                                  # Greek first letter, Latin rest
+        bad_glob, bad_loc, n_glob, n_loc = None, None, 0, 0
+        try:
+            for text in cands:
+                data = text.encode('utf-8')
+                toks = M.dfa['MATH'].tokenize(data)
+                if len(toks) != 1 or not toks[0][0].startswith('ID_'):
+                    continue                                   # not an identifier of the MATH syntax: outside the statement
+                kind = toks[0][0]
+                this = Obj(id=tokid[kind], pos=Obj(start=0, finish=len(text)), data=Obj(__kind__='tokendata', value=data))
+                out = bytes(M.gen.interp().call(tostr, [syntax_enum['ASCII']], this))
+                back = M.dfa['ASCII'].tokenize(out)
+                okk = len(back) == 1 and back[0][0] == kind
+                if kind == 'ID_LOCAL':
+                    n_loc += 1
+                    if not okk and bad_loc is None:
+                        bad_loc = 'the local name %s is printed in ASCII as `%s`, which the ASCII lexer reads as %s' % (text, out.decode('utf-8', 'replace'), [x[0] for x in back])
+                else:
+                    n_glob += 1
+                    if not okk and bad_glob is None:
+                        bad_glob = 'the MATH lexer accepts %s as %s; in ASCII it is printed as `%s`, which the ASCII lexer reads as %s' % (text, kind, out.decode('utf-8', 'replace'), [x[0] for x in back])
+        except OutOfFragment as e:
+            r8.broken('Token::ToString outside the evaluable fragment: %s' % e)
+            bad_glob = bad_loc = None
+            n_glob = n_loc = 0
+        if n_glob or bad_glob:
+            if bad_glob:
+                r8.violation('greek-in-global', '%s:%d' % (tostr.file, tostr.line), bad_glob)
+            else:
+                r8.ok('greek-in-global', '%d identifiers with Greek letters outside local names print to one ASCII identifier of the same kind' % n_glob, '%s:%d' % (tostr.file, tostr.line))
+        else:
+            r8.ok('greek-in-global', 'the MATH lexer accepts no Greek letter outside local names', '%s:%d' % (tostr.file, tostr.line), nontrivial=False)
+        if bad_loc:
+            r8.violation('keyword-transliteration', '%s:%d' % (tostr.file, tostr.line), bad_loc)
+        else:
+            r8.ok('keyword-transliteration', '%d local names whose transliteration spells an ASCII keyword still print to one ASCII local identifier' % n_loc, '%s:%d' % (tostr.file, tostr.line))
+
     # ---------------------------------------------------------------- r4
     r4 = rep.rule('r4', 'EQUALITY: SyntaxTree::Node::operator== compares id, payload and all children, never positions', 1)
     eq = db.fn('ccl::rslang::SyntaxTree::Node::operator==')
